@@ -497,3 +497,76 @@ def strip_comments(text):
             out.append(text[last:t.a]); last = t.b
     out.append(text[last:])
     return ''.join(out)
+
+
+# --------------------------------------------------------------------------- or-pattern splitting (R3)
+
+def split_or_arms(text, log, where=''):
+    """R3 definitional expansion: `P1 | P2 => BODY` in a match becomes `P1 => BODY, P2 => BODY`
+    (Verus rejects or-patterns that bind by mutable reference).  Applied until no arm has a
+    top-level `|`."""
+    guard = 0
+    while True:
+        guard += 1
+        if guard > 500:
+            raise ScanError('or-split does not terminate in ' + where)
+        toks = tokenize(text)
+        done = True
+        for i, t in enumerate(toks):
+            if not (t.kind == 'id' and t.text == 'match'):
+                continue
+            j = i + 1
+            while j < len(toks) and not (toks[j].kind == 'op' and toks[j].text == '{'):
+                if toks[j].kind == 'op' and toks[j].text in ('(', '['):
+                    j = match_close(toks, j)
+                j += 1
+            if j >= len(toks):
+                continue
+            close = match_close(toks, j)
+            k = j + 1
+            while k < close:
+                # pattern: up to `=>` at depth 0
+                ps = k
+                bars = []
+                while k < close and not (toks[k].kind == 'op' and toks[k].text == '=>'):
+                    if toks[k].kind == 'op' and toks[k].text in OPEN:
+                        k = match_close(toks, k)
+                    elif toks[k].kind == 'op' and toks[k].text == '|':
+                        bars.append(k)
+                    k += 1
+                if k >= close:
+                    break
+                arrow = k
+                # body
+                bs = k + 1
+                if toks[bs].kind == 'op' and toks[bs].text == '{':
+                    be = match_close(toks, bs)
+                    k = be + 1
+                    if k < close and toks[k].text == ',':
+                        k += 1
+                else:
+                    k = bs
+                    while k < close and not (toks[k].kind == 'op' and toks[k].text == ','):
+                        if toks[k].kind == 'op' and toks[k].text in OPEN:
+                            k = match_close(toks, k)
+                        k += 1
+                    be = k - 1
+                    if k < close:
+                        k += 1
+                if bars:
+                    pats = []
+                    lo = ps
+                    for b in bars + [arrow]:
+                        pats.append(text[toks[lo].a:toks[b - 1].b])
+                        lo = b + 1
+                    body = text[toks[bs].a:toks[be].b]
+                    new = ''.join('%s => %s,\n' % (p_, body) for p_ in pats)
+                    a, b_ = toks[ps].a, toks[k - 1].b
+                    log.append(dict(rule='R3.orsplit', where=where, before=' | '.join(pats) + ' => ..', after='%d arms' % len(pats)))
+                    text = text[:a] + new + text[b_:]
+                    done = False
+                    break
+            if not done:
+                break
+        if done:
+            return text
